@@ -75,6 +75,8 @@ class Ref:
         self.outstanding = set()
         self.writes = []
         self.lenient_version = False
+        self.attempts = 0
+        self.fail_set = set()
 
     def proto(self):
         if getattr(self, "force_proto", None) is not None:
@@ -83,8 +85,9 @@ class Ref:
         return s if s is not None else (1, 4)
 
     def w(self, line):
-        if getattr(self, "fail_next", False):
-            self.fail_next = False
+        i = self.attempts
+        self.attempts += 1
+        if i in self.fail_set:
             raise Err("TransportError", transport=True)
         self.writes.append(line)
 
@@ -295,7 +298,7 @@ def drive(gw, tr, ref, steps):
         real_out = None
         if kind == "fail":  # the next transport write fails
             tr.fail_writes.add(tr.attempts)
-            ref.fail_next = True
+            ref.fail_set.add(ref.attempts)
             continue
         if kind == "recv":
             line = st[1]
@@ -306,7 +309,8 @@ def drive(gw, tr, ref, steps):
                 real_out = ("yield", (msg.node_id, msg.child_id, msg.command, msg.ack, msg.message_type, msg.payload))
             except AIOMySensorsError as e:
                 attrs = {k: getattr(e, k) for k in ("node_id", "child_id") if hasattr(e, k)}
-                real_out = ("error", type(e).__name__, attrs)
+                kind_name = "TransportError" if type(e).__name__ in ("TransportFailedError", "TransportReadError") else type(e).__name__
+                real_out = ("error", kind_name, attrs)
             except Exception as e:  # noqa: BLE001
                 diffs.append(({"C03"} | ({"C02"} if decode(line) is None else set()), f"step {i} {line!r}: non-library exception {type(e).__name__}: {e}"))
                 real_out = ("crash", type(e).__name__, {})
@@ -341,8 +345,21 @@ def drive(gw, tr, ref, steps):
             except Exception as e:  # noqa: BLE001
                 diffs.append(({"C12", "C03"}, f"step {i} send {st[1:]}: non-library exception {type(e).__name__}: {e}"))
         rw, xw = norm_writes(tr.writes[before_w:]), norm_writes(ref.writes)
+        is_wake = False
+        if kind == "recv":
+            d_ = decode(st[1])
+            pv = ref.proto()
+            is_wake = d_ is not None and d_[2] == 3 and ((d_[4] == 22 and (2, 0) <= pv < (2, 2)) or (d_[4] == 32 and pv >= (2, 2)))
         if rw != xw:
-            diffs.append((classify_write_diff(rw, xw) | ({"C12"} if kind == "send" else set()), f"step {i} {st!r}: wrote {rw} expected {xw}"))
+            if kind == "send":
+                props = {"C12"}
+            elif any(";3;0;19;" in w for w in rw + xw):
+                props = {"C10"}
+            elif is_wake:
+                props = {"C07"} | ({"C08"} if ref.fail_set else set())
+            else:
+                props = {"C06"}
+            diffs.append((props, f"step {i} {st!r}: wrote {rw} expected {xw}"))
         rv, xv = real_view(gw), ref.view()
         if rv != xv:
             # a rejected gateway-version presentation may legitimately differ only if the model was lenient
@@ -362,7 +379,7 @@ def drive(gw, tr, ref, steps):
             ref.version = gw.protocol_version
         rp = {k: enc(m.node_id, m.child_id, m.command, m.ack, m.message_type, m.payload) for k, m in gw._message_buffer.set_messages.items()}
         if rp != ref.pending:
-            diffs.append(({"C07", "C12"}, f"step {i} {st!r}: buffered {rp} expected {ref.pending}"))
+            diffs.append(({"C12", "C07"} if kind == "send" else ({"C07"} | ({"C08"} if ref.fail_set else set())), f"step {i} {st!r}: buffered {rp} expected {ref.pending}"))
             ref.pending = dict(rp)
     return diffs
 
